@@ -52,7 +52,7 @@ def render_iface_impl(c, i, style):
     for (n, t) in i.assoc_impl:
         lines.append("type %s = %s;" % (n, t))
     for m in i.methods:
-        lines.append(model.render_impl_method(m, i.name, style, i))
+        lines.append(model.render_impl_method(m, i.name, i.body_style or style, i))
     gens = ""
     if c.generics:
         gens = "<%s>" % ", ".join((n + (": " + b if b else "")) for n, b in c.generics)
